@@ -321,13 +321,19 @@ def _calculate_tradeoff_points(
     while i < n:
         # special handling of the initial point
         if x_list == []:
-            threshold = np.inf
+            gt_threshold = lt_threshold = np.inf
         else:
-            threshold = scores[i]
-            while scores[i] == threshold:
+            upper = scores[i]
+            while scores[i] == upper:
                 count[labels[i]] += 1
                 i += 1
-            threshold = (threshold + scores[i]) / 2
+            lower = scores[i]
+            threshold = (upper + lower) / 2
+            # The midpoint of two neighbouring floating point numbers (e.g. 0.3 and 0.1 + 0.2)
+            # rounds to one of them; '>' needs lower <= threshold < upper and '<' needs
+            # lower < threshold <= upper to separate the two score levels.
+            gt_threshold = lower if threshold >= upper else threshold
+            lt_threshold = upper if threshold <= lower and np.isfinite(lower) else threshold
 
         actual_counts = _extend_confusion_matrix(
             false_positives=count[0],
@@ -342,11 +348,11 @@ def _calculate_tradeoff_points(
             false_negatives=count[1],
         )
         if flip:
-            operations = [(">", actual_counts), ("<", flipped_counts)]
+            operations = [(">", gt_threshold, actual_counts), ("<", lt_threshold, flipped_counts)]
         else:
-            operations = [(">", actual_counts)]
+            operations = [(">", gt_threshold, actual_counts)]
 
-        for operation_string, counts in operations:
+        for operation_string, threshold, counts in operations:
             x = METRIC_DICT[x_metric](counts)
             y = METRIC_DICT[y_metric](counts)
             operation = ThresholdOperation(operation_string, threshold)
